@@ -5,6 +5,10 @@ P = {}
 def add(pid, cat, text, note, technique, design_ref, engine):
     P[pid] = dict(cat=cat, text=text, note=note, technique=technique, design_ref=design_ref, engine=engine)
 
+add("C01", "model_checking",
+    "Every case of finite, index-addressable families is executed on the real parser inside an isolated worker process on a 2 MiB thread under catch_unwind, with abnormal exits (signals, aborts, hangs beyond a 60 s horizon) attributed to the exact index: grammar product with adversarial templates x body lengths x fills x delivery x length/count deviations (V9 and IPFIX), every single-byte deviation (all 256 values) and every truncation of every seed under 3-5 cache states, structural deviations, all buffers of <=2 bytes, and the scale ladder of every structural repetition up to the 65 535-byte datagram limit in release and dev profiles; every returned value is re-exported, converted and serialised.",
+    "coverage is the stated families, not all byte strings; non-termination is judged against an explicit horizon; live-heap budget overruns are counted as C15's subject",
+    "bounded-exhaustive execution sweep with subprocess fault attribution (stateless exploration of real code)", "DESIGN.md §5 C01", "E-SWEEP")
 add("C03", "exploration",
     "Bounded-exhaustive enumeration of V5/V7 input shapes on the real parse_bytes against an independent offset-table decoder: every byte offset x all 256 values of two byte-distinct packets, all field pairs x boundary values, every count 0..=65535 over short and maximal buffers, every materialisable record count, all 256 protocol numbers, every proper prefix. Stateless property over inputs, so exhaustive enumeration of the shape space is the deciding step.",
     "trusted: reference decoder refmodel::ref_fixed and the IANA keyword table mc/src/iana.rs; byte values beyond the walking-byte/boundary alphabets are not covered",
@@ -43,7 +47,7 @@ for pid in ALL:
 na = [{"property_id": pid, "reason": PENDING.get(pid, "check not built yet in this session (planned, see DESIGN.md §5); nothing is claimed for it until it runs")} for pid in ALL if pid not in P]
 m = {
     "version": 1,
-    "setup_cmd": "cd /verif/mc && CARGO_NET_OFFLINE=true cargo build --release --offline",
+    "setup_cmd": "cd /verif/mc && CARGO_NET_OFFLINE=true cargo build --release --offline && CARGO_NET_OFFLINE=true cargo build --offline",
     "hooks": {
         "guard": "netflow_parser_verif",
         "enable": "no hooks are needed: every observation point is public API; the harness crate /verif/mc path-depends on /repo and is rebuilt by ./check on every run",
@@ -52,6 +56,7 @@ m = {
         "add_only": True,
     },
     "engines": [
+        {"name": "E-SWEEP", "path": "/verif/mc/src/sweep.rs", "serves_properties": [c["property_id"] for c in checks if c["engine"] == "E-SWEEP"], "kind_free_text": "exhaustive evaluation of index ranges in isolated worker processes (2 MiB thread, catch_unwind, counting allocator with live-heap budget, heartbeat watchdog); abnormal exits are attributed to the index in flight"},
         {"name": "E-ENUM", "path": "/verif/mc/src/engine.rs", "serves_properties": [c["property_id"] for c in checks if c["engine"] == "E-ENUM"], "kind_free_text": "index-addressable exhaustive enumeration of finite input/history/configuration spaces on the real parser, rayon-parallel, judged against a reference model or a relational law"},
     ],
     "checks": checks,
